@@ -18,15 +18,30 @@ A scenario (JSON-able):
      "rc": i,                            # the application gives the request up -- request.response.cancel(), what
                                          # asyncio.wait_for does on time-out -- just before arrival i (0 = before
                                          # the first response; later the future is complete and nothing changes)
-     "arrivals": [[gap, "M", code, obs|None, id] | [gap, "X", k]]}
+     "oc": i,                            # the application calls request.observation.cancel() (it may still want the
+                                         # response) just before arrival i (0 = before the first response)
+     "cancel_on_response": bool,         # the application only wanted the response: a task of it does
+                                         # `await request.response; request.observation.cancel()`
+     "tuning": kind,                     # the request's transport_tuning as the application passes it
+                                         # (c07_pipe.TUNINGS: none, instance, the classes Reliable / Unreliable, ...)
+     "at": [ticks, ...],                 # harness clock (standing in for `time` inside aiocoap.protocol) at each
+                                         # arrival, in ticks of 2**-20 s; default: the clock stands still
+     "others": [[when, remote], ...],    # further requests of the application (plain GETs, never answered) to the
+                                         # observation's peer (remote 0) or to another one (remote 1), registered
+                                         # just before arrival `when` (0 = while the observing request awaits its
+                                         # first response; -1 = before the observing request itself, which then is
+                                         # the NEWEST entry of the token manager)
+     "arrivals": [[gap, "M", code, obs|None, id] | [gap, "X", k(, remote)]]}
 `gap` = event-loop iterations the harness yields before that arrival (0 = back to back with the
 previous one, i.e. while nobody else has run); `k`: 0 = the message layer reports a Reset of the
-request (MessageError), 1 = ConRetransmitsExceeded, 2 = NetworkError through `dispatch_error`.
+request (MessageError), 1 = ConRetransmitsExceeded, 2 = NetworkError through `dispatch_error`, for the
+observation's peer or (remote = 1) for the other peer.
 This level is judged by the oracle only.
 """
 import asyncio
 
-from c07_pipe import EXC_NAMES, rfc_fresher, is_notification
+from c07_pipe import (EXC_NAMES, RFC_RESET_TICKS, TICK, Clock, rfc_fresher, is_notification, make_tuning,
+                      tuned_reset_ticks)
 
 
 class FakeRemote:
@@ -89,6 +104,16 @@ class AppBench:
         return {1: e.ConRetransmitsExceeded(), 2: e.NetworkError("harness")}[k]
 
     async def run(self, sc):
+        import aiocoap.protocol as P
+        clock = Clock()
+        saved_time = P.time
+        P.time = clock
+        try:
+            return await self._run(sc, clock)
+        finally:
+            P.time = saved_time
+
+    async def _run(self, sc, clock):
         A = self.A
         loop = asyncio.get_running_loop()
         loop_errors = []
@@ -101,7 +126,21 @@ class AppBench:
         tman.token_interface = ti
         ctx.request_interfaces.append(tman)
         remote = FakeRemote()
-        msg = A.Message(code=A.GET, observe=0, uri_path=("obs",))
+        remotes = [remote, FakeRemote()]
+        remotes[1].hostinfo, remotes[1].uri_base, remotes[1].blockwise_key = "other.example", "coap://other.example", "o"
+        others = []                      # [remote index, request] of the application's further requests
+
+        def start_others(when):
+            for w, rem in sc.get("others") or []:
+                if w == when:
+                    m2 = A.Message(code=A.GET, uri_path=("other", str(len(others))))
+                    m2.remote = remotes[rem]
+                    r2 = ctx.request(m2, handle_blockwise=False)
+                    r2.response.add_done_callback(lambda f: f.cancelled() or f.exception())
+                    others.append([rem, r2])
+
+        start_others(-1)
+        msg = A.Message(code=A.GET, observe=0, uri_path=("obs",), transport_tuning=make_tuning(A, sc.get("tuning")))
         msg.remote = remote
         req = ctx.request(msg, handle_blockwise=sc["blockwise"])
         seen = []          # ("item", id) | ("stop",) | ("raise", name) | ("eb", name)
@@ -110,11 +149,13 @@ class AppBench:
 
         Error = self.error.Error
         cancel_at = sc.get("cancel_at")
+        in_callback = []
 
         def app_callback(m):
             n = int(m.payload or b"0")
             seen.append(("item", n))
             if n == cancel_at:
+                in_callback.append(n)
                 req.observation.cancel()
 
         if sc["consumer"] == "callbacks":
@@ -184,11 +225,15 @@ class AppBench:
         await turn(6)                       # BlockwiseRequest sends from its task
         if not ti.sent:
             raise RuntimeError("request was not sent")
-        sent = ti.sent[-1]
+        mine = [i for i, m in enumerate(ti.sent) if m.opt.observe == 0]
+        if len(mine) != 1:
+            raise RuntimeError("observing request not found among what was sent")
+        sent = ti.sent[mine[0]]
         consumer = None
         resp = None
         pending = None
         snapshot = []
+        other_states = []
         after_shutdown = None
         open_delay = sc.get("open", 0)
 
@@ -205,6 +250,23 @@ class AppBench:
                 await asyncio.sleep(0)
             await (consume_polling() if sc["consumer"] == "poll" else consume())
 
+        matched = []
+        oc_at, n_x = [], [0]             # before which arrival the application's cancel ran
+        settled = []
+        only = None
+        if sc.get("cancel_on_response"):
+            async def only_the_response():
+                try:
+                    await req.response
+                except Exception:
+                    return
+                seen.append(("oc",))
+                oc_at.append(len(matched) + n_x[0])
+                try:
+                    req.observation.cancel()
+                except Exception:
+                    pass            # (raised into the application's own call: not judged at this level)
+            only = loop.create_task(only_the_response())
         try:
             if sc.get("rc") is not None and sc["consumer"] in ("iter", "poll"):
                 # the application iterates from the start (and waits for the response elsewhere)
@@ -217,9 +279,26 @@ class AppBench:
                         await turn(8)
                     req.response.cancel()
                     await turn(3)
+                if sc.get("oc") == idx:
+                    seen.append(("oc",))
+                    oc_at.append(idx)
+                    try:
+                        req.observation.cancel()
+                    except Exception:
+                        pass        # (raised into the application's own call: not judged at this level)
+                    await turn(3)
                 if a is None:
                     break
                 await turn(a[0])
+                if a[0] and idx >= 1 and (("oc",) in seen or in_callback) and not settled:
+                    # the application has cancelled and the library's tasks get a quiet moment before this arrival
+                    await turn(8)
+                    settled.append(idx)
+                if any(w == idx for w, _ in sc.get("others") or []):
+                    start_others(idx)
+                    await turn(2)
+                if sc.get("at"):
+                    clock.now = 1000.0 + sc["at"][idx] * TICK
                 try:
                     if a[1] == "M":
                         m = A.Message(code=A.Code(a[2]), payload=str(a[4]).encode())
@@ -227,11 +306,15 @@ class AppBench:
                             m.opt.observe = a[3]
                         m.token = sent.token
                         m.remote = remote
-                        tman.process_response(m)
+                        # (whether the token manager knew the token: what makes a message layer acknowledge or reject)
+                        matched.append([idx, None])
+                        matched[-1][1] = tman.process_response(m)
                     elif a[2] == 0:
-                        ti.monitors[-1]()       # the message layer reports a Reset of the request
+                        n_x[0] += 1
+                        ti.monitors[mine[0]]()       # the message layer reports a Reset of the request
                     else:
-                        tman.dispatch_error(self.make_exc(a[2]), remote)
+                        n_x[0] += 1
+                        tman.dispatch_error(self.make_exc(a[2]), remotes[a[3] if len(a) > 3 else 0])
                 except Exception as e:
                     escaped.append((idx, type(e).__name__))
                 if consumer is None and sc["consumer"] in ("iter", "poll"):
@@ -249,6 +332,13 @@ class AppBench:
                     consumer.cancel()
                 await asyncio.gather(consumer, return_exceptions=True)
             snapshot = list(seen)         # what follows is the harness cleaning up
+            if only is not None and not only.done():
+                only.cancel()
+            other_states = []
+            for rem, r2 in others:
+                f = r2.response
+                other_states.append([rem, "pending" if not f.done() else "cancelled" if f.cancelled() else
+                                     "raise:" + _name(f.exception(), Error) if f.exception() is not None else "resp"])
         finally:
             try:
                 await ctx.shutdown()
@@ -258,12 +348,78 @@ class AppBench:
             after_shutdown = seen[len(snapshot):]
             loop.set_exception_handler(old_handler)
         return {"seen": snapshot, "resp": resp, "escaped": escaped, "loop_errors": loop_errors,
-                "pending": pending, "after_shutdown": after_shutdown}
+                "pending": pending, "after_shutdown": after_shutdown, "others": other_states, "matched": matched,
+                "oc_at": oc_at[0] if oc_at else None, "settled_at": settled[0] if settled else None}
 
 
 # ---------------------------------------------------------------------------------------------
 # Oracle: the property, read over the arrivals and over what the application saw.
 # ---------------------------------------------------------------------------------------------
+
+def oracle_others(sc, res):
+    """the application's other requests: a transport failure reported for a peer fails every request outstanding
+    to THAT peer (once: a future completes once) and leaves the requests to other peers alone; a Reset of the
+    observing request concerns nobody else; nothing that happens on the observation's token touches them"""
+    if not sc.get("others"):
+        return "", None
+    want = {}
+    order = []
+    for idx in [-1] + list(range(len(sc["arrivals"]))):
+        for w, rem in sc["others"]:
+            if w == idx:
+                order.append(len(order))
+                want[order[-1]] = [rem, "pending"]
+        if idx >= 0:
+            a = sc["arrivals"][idx]
+            if a[1] == "X" and a[2] != 0:
+                failed = a[3] if len(a) > 3 else 0
+                for k in want:
+                    if want[k][0] == failed and want[k][1] == "pending":
+                        want[k][1] = "raise:" + EXC_NAMES[a[2]]
+    got = res["others"]
+    exp = [want[k] for k in sorted(want)]
+    if sc.get("rc") is None and got != exp:
+        return (f"the application's other requests (peer, state): expected {exp}, found {got} -- a transport failure "
+                "concerns exactly the requests outstanding to the peer it is reported for"), "app:other-requests"
+    return "", None
+
+
+def oracle_token_released(sc, res, arr, end):
+    """"After the end ... later notifications on that token are rejected like unknown responses": once the
+    observation has ended -- not observable, final response, transport failure of its peer -- nothing that arrives
+    on the token is known to the token manager any more.  When the application cancels the observation itself
+    (observation.cancel() somewhere, or from inside its callback) the client notices at the next notification --
+    it has no other occasion: stated allowance -- so at most ONE more is still taken, all later ones are rejected.
+    With the default API the block-wise layer reacts to the cancel in its task: what arrives in the same burst (before
+    the event loop ran the library's tasks) does not count.
+    (`arr`: the arrivals that concern this observation's peer, `end`: how the oracle says it ends.)"""
+    ended_at = None
+    if end is not None:
+        for i, a in enumerate(arr):
+            if a[1] == "X" or not is_notification(a[2], a[3]):
+                ended_at = sc["arrivals"].index(a)
+                break
+    cancelled_at = res.get("oc_at")
+    if sc.get("cancel_at") is not None and ("item", sc["cancel_at"]) in res["seen"]:
+        at = next(i for i, a in enumerate(sc["arrivals"]) if a[1] == "M" and a[4] == sc["cancel_at"]) + 1
+        cancelled_at = at if cancelled_at is None else min(at, cancelled_at)
+    if cancelled_at is not None and sc["blockwise"]:
+        cancelled_at = res.get("settled_at")
+    taken = 0
+    for idx, ok in res.get("matched", []):
+        if ended_at is not None and idx > ended_at and ok:
+            return (f"arrival {idx} {sc['arrivals'][idx][1:]} on the observation's token was still taken by the token "
+                    f"manager after the observation had ended at arrival {ended_at} {sc['arrivals'][ended_at][1:]} (it "
+                    "would be acknowledged, not rejected)"), "app:token-not-released"
+        if cancelled_at is not None and idx >= max(cancelled_at, 1) and ok:
+            taken += 1
+            if taken > 1:
+                return (f"the application cancelled the observation before arrival {cancelled_at}; {taken} later "
+                        f"notifications on its token were still taken by the token manager (the last: arrival {idx}) "
+                        "-- the token is never given up, every notification keeps being acknowledged"), \
+                    "app:token-not-released"
+    return "", None
+
 
 def oracle_app(sc, res):
     """-> (verdict, key)"""
@@ -293,7 +449,15 @@ def oracle_app(sc, res):
                     f"request.observation must end, it {'is still pending' if res['pending'] else 'saw'} "
                     f"{seen}"), "app:response-cancelled"
         return "", None
-    # what the property allows / demands, from the arrivals alone (all within far less than 128 s)
+    v, key = oracle_others(sc, res)
+    if v:
+        return v, key
+    # a transport failure reported for ANOTHER peer says nothing about this observation
+    at = sc.get("at") or [0] * len(arr)
+    at = [t for t, a in zip(at, arr) if not (a[1] == "X" and len(a) > 3 and a[3] != 0)]
+    arr = [a for a in arr if not (a[1] == "X" and len(a) > 3 and a[3] != 0)]
+    reset = tuned_reset_ticks(sc.get("tuning"), RFC_RESET_TICKS)
+    # what the property allows / demands, from the arrivals and the clock alone
     first = arr[0]
     accepted = []        # ids of notifications fresher than the last accepted, in order (after the first)
     end = None           # None | "NotObservable" | "ObservationCancelled" | exception name
@@ -308,20 +472,41 @@ def oracle_app(sc, res):
             # "not observable if the first response carries no Observe option" (as every non-2.xx one)
             end = "NotObservable"
         else:
-            last = first[3]
-            for a in arr[1:]:
+            last, tlast = first[3], at[0]
+            for a, t in zip(arr[1:], at[1:]):
                 if a[1] == "X":
                     end = EXC_NAMES[a[2]]
                     break
                 if not is_notification(a[2], a[3]):
                     end, final = "ObservationCancelled", a[4]
                     break
-                if rfc_fresher(last, 0, a[3], 0):
+                if rfc_fresher(last, tlast, a[3], t, reset):
                     accepted.append(a[4])
-                    last = a[3]
+                    last, tlast = a[3], t
     if res["resp"] != want_resp:
         return f"response future: expected {want_resp}, got {res['resp']}", "app:response"
+    v, key = oracle_token_released(sc, res, arr, end)
+    if v:
+        return v, key
     allowed = accepted + ([final] if final is not None else [])
+    if ("oc",) in seen:
+        # the application cancelled the observation itself: nothing is handed to its callbacks or signalled afterwards
+        # (what it got before is judged like everything else); the response future was judged above
+        k = seen.index(("oc",))
+        if seen[k + 1:]:
+            return f"the application cancelled the observation, then was handed {seen[k + 1:]}", "app:after-cancel"
+        seen = seen[:k]
+        if all(x[0] == "item" for x in seen):
+            # cancelled while it ran
+            j = 0
+            for x in seen:
+                while j < len(allowed) and allowed[j] != x[1]:
+                    j += 1
+                if j == len(allowed):
+                    return f"handed over {seen}: not a freshness-ordered subsequence (allowed {allowed})", "app:order"
+                j += 1
+            return "", None
+        # (it had ended before: the cancel changes nothing)
     items = []
     k = 0
     while k < len(seen) and seen[k][0] == "item":
